@@ -63,7 +63,7 @@ def _menu(tier):
         "foo": [("unknown-key", 1)],
     }
     resp = {
-        "code": [("valid", 404), ("abc", "abc")],
+        "code": [("valid", 404), ("abc", "abc"), ("negative", -1)],
         "reason": [("valid", "Nope")],
         "headers": HDR_KINDS,
         "content": CONTENT_KINDS,
